@@ -321,28 +321,47 @@ theorem sameSet_mem {a b : List Id} (h : sameSet a b = true) (x : Id) : x ∈ a 
   simp only [Bool.and_eq_true, List.all_eq_true, List.contains_iff_mem] at h
   exact ⟨fun hx => h.1 x hx, fun hx => h.2 x hx⟩
 
-theorem installPack_snd_mem (packs : List Pack) (objs : List Id) (now : Nat) (x : Id) :
-    x ∈ (installPack packs objs now).2.ids ↔ x ∈ objs := by
+theorem installPack_snd_mem (v : Variant) (packs : List Pack) (objs : List Id) (now : Nat) (x : Id) :
+    x ∈ (installPack v packs objs now).2.ids ↔ x ∈ objs := by
   unfold installPack
   split
   · rename_i p hp
     have := List.find?_some hp
-    exact sameSet_mem (by simpa using this) x
+    have hiff := sameSet_mem (a := p.ids) (b := objs) (by simpa using this) x
+    split
+    · exact hiff
+    · exact hiff
   · rfl
 
-theorem installPack_fst_any (packs : List Pack) (objs : List Id) (now : Nat) (x : Id) :
-    (∃ p ∈ (installPack packs objs now).1, x ∈ p.ids) ↔ (∃ p ∈ packs, x ∈ p.ids) ∨ x ∈ objs := by
+theorem installPack_fst_any (v : Variant) (packs : List Pack) (objs : List Id) (now : Nat) (x : Id) :
+    (∃ p ∈ (installPack v packs objs now).1, x ∈ p.ids) ↔ (∃ p ∈ packs, x ∈ p.ids) ∨ x ∈ objs := by
   unfold installPack
   split
   · rename_i p hp
     have hs := List.find?_some hp
     have hm := List.mem_of_find?_eq_some hp
     have hiff := sameSet_mem (a := p.ids) (b := objs) (by simpa using hs) x
-    constructor
-    · exact fun h => .inl h
-    · rintro (h | h)
-      · exact h
-      · exact ⟨p, hm, hiff.mpr h⟩
+    split
+    · simp only [List.mem_map]
+      constructor
+      · rintro ⟨q, ⟨q0, hq0, rfl⟩, hx⟩
+        refine .inl ⟨q0, hq0, ?_⟩
+        split at hx
+        · exact hx
+        · exact hx
+      · rintro (⟨q, hq, hx⟩ | h)
+        · refine ⟨_, ⟨q, hq, rfl⟩, ?_⟩
+          split
+          · exact hx
+          · exact hx
+        · refine ⟨_, ⟨p, hm, rfl⟩, ?_⟩
+          simp only [if_true]
+          exact hiff.mpr h
+    · constructor
+      · exact fun h => .inl h
+      · rintro (h | h)
+        · exact h
+        · exact ⟨p, hm, hiff.mpr h⟩
   · simp only [List.mem_append, List.mem_singleton]
     constructor
     · rintro ⟨p, hp | rfl, hx⟩
@@ -374,8 +393,8 @@ theorem has_mk (l : List (Id × Nat)) (pk : List Pack) (al : List Id) (x : Id) :
   rfl
 
 /-- after `repack(exclude)`: alternates untouched; a local object survives iff it is not excluded -/
-theorem repack_has (s : Store) (ex : List Id) (now : Nat) (x : Id) :
-    (repack s ex now).has x = true ↔
+theorem repack_has (v : Variant) (s : Store) (ex : List Id) (now : Nat) (x : Id) :
+    (repack v s ex now).has x = true ↔
       x ∈ s.alts ∨ (((∃ p ∈ s.packs, x ∈ p.ids) ∨ x ∈ s.looseIds) ∧ x ∉ ex) := by
   have hobjs : ∀ y, y ∈ dedup ((s.looseIds.filter (fun x => !ex.contains x)) ++
         s.packs.flatMap (fun p => p.ids.filter (fun x => !ex.contains x))) ↔
@@ -414,7 +433,7 @@ theorem repack_has (s : Store) (ex : List Id) (now : Nat) (x : Id) :
       · exact .inr h
       · exact .inl h
 
-theorem packLoose_has (s : Store) (now : Nat) (x : Id) : (packLoose s now).has x = true ↔ s.has x = true := by
+theorem packLoose_has (v : Variant) (s : Store) (now : Nat) (x : Id) : (packLoose v s now).has x = true ↔ s.has x = true := by
   unfold packLoose
   split
   · rfl
@@ -431,17 +450,17 @@ theorem packLoose_has (s : Store) (now : Nat) (x : Id) : (packLoose s now).has x
       · exact .inl (.inr h)
       · exact .inr h
 
-theorem mem_toPrune {s : Store} {reach : List Id} {grace : Option Nat} {now : Nat} {x : Id}
-    (h : x ∈ toPrune s reach grace now) : x ∉ reach ∧ selectable s grace now x = true := by
+theorem mem_toPrune {v : Variant} {s : Store} {reach : List Id} {grace : Option Nat} {now : Nat} {x : Id}
+    (h : x ∈ toPrune v s reach grace now) : x ∉ reach ∧ selectable v s grace now x = true := by
   unfold toPrune unreachable at h
   simp only [List.mem_filter, not_contains_iff] at h
   exact ⟨h.1.2, h.2⟩
 
 /-- after `garbage_collect`: alternates untouched; a local object survives iff it was not selected -/
-theorem gcWith_has (s : Store) (reach : List Id) (prune : Bool) (grace : Option Nat) (now : Nat) (x : Id) :
-    (gcWith s reach prune grace now).has x = true ↔
+theorem gcWith_has (v : Variant) (s : Store) (reach : List Id) (prune : Bool) (grace : Option Nat) (now : Nat) (x : Id) :
+    (gcWith v s reach prune grace now).has x = true ↔
       x ∈ s.alts ∨ (((∃ p ∈ s.packs, x ∈ p.ids) ∨ x ∈ s.looseIds) ∧
-        x ∉ (if prune then toPrune s reach grace now else [])) := by
+        x ∉ (if prune then toPrune v s reach grace now else [])) := by
   unfold gcWith
   simp only
   rw [repack_has]
@@ -456,20 +475,21 @@ theorem gcWith_has (s : Store) (reach : List Id) (prune : Bool) (grace : Option 
     · exact .inr ⟨.inl h1, h2⟩
     · exact .inr ⟨.inr ⟨e, ⟨he, h2⟩, rfl⟩, h2⟩
 
-theorem pruneLoose_has (s : Store) (reach : List Id) (grace : Option Nat) (now : Nat) (x : Id) :
-    (pruneLoose s reach grace now).has x = true ↔
-      (∃ p ∈ s.packs, x ∈ p.ids) ∨ (∃ t, (x, t) ∈ s.loose ∧ (x ∈ reach ∨ young grace now t = true)) ∨ x ∈ s.alts := by
+theorem pruneLoose_has (v : Variant) (s : Store) (reach : List Id) (grace : Option Nat) (now : Nat) (x : Id) :
+    (pruneLoose v s reach grace now).has x = true ↔
+      (∃ p ∈ s.packs, x ∈ p.ids) ∨ (x ∈ s.looseIds ∧ (x ∈ reach ∨ selectable v s grace now x = false)) ∨ x ∈ s.alts := by
   unfold pruneLoose
   rw [has_mk]
-  simp only [List.mem_map, List.mem_filter, Bool.or_eq_true, List.contains_iff_mem]
+  simp only [Store.looseIds, List.mem_map, List.mem_filter, Bool.or_eq_true, List.contains_iff_mem,
+    Bool.not_eq_true']
   constructor
   · rintro (h | ⟨⟨a, t⟩, ⟨he, hk⟩, rfl⟩ | h)
     · exact .inl h
-    · exact .inr (.inl ⟨t, he, hk⟩)
+    · exact .inr (.inl ⟨⟨(a, t), he, rfl⟩, hk⟩)
     · exact .inr (.inr h)
-  · rintro (h | ⟨t, he, hk⟩ | h)
+  · rintro (h | ⟨⟨e, he, rfl⟩, hk⟩ | h)
     · exact .inl h
-    · exact .inr (.inl ⟨(x, t), ⟨he, hk⟩, rfl⟩)
+    · exact .inr (.inl ⟨e, ⟨he, hk⟩, rfl⟩)
     · exact .inr (.inr h)
 
 theorem lookup_of_mem_looseIds {l : List (Id × Nat)} {x : Id} (h : x ∈ l.map (·.1)) :
@@ -496,14 +516,14 @@ theorem lookup_of_mem_looseIds {l : List (Id × Nat)} {x : Id} (h : x ∈ l.map 
 /-! ### the property theorems on the logical model -/
 
 /-- 3. one maintenance operation never loses a reachable object -/
-theorem apply_preserves_reachable {G : Id → List Id} {roots : List Id} {fuel : Nat} {op : Op} {s s' : Store}
-    (h : apply G roots fuel op s = some s') {x : Id} (hr : Reach s G roots x) (hx : s.has x = true) :
-    s'.has x = true := by
+theorem apply_preserves_reachable {v : Variant} {G : Id → List Id} {roots : List Id} {fuel : Nat} {op : Op}
+    {s s' : Store} (h : apply v G roots fuel op s = some s') {x : Id} (hr : Reach s G roots x)
+    (hx : s.has x = true) : s'.has x = true := by
   cases op with
   | packLoose now =>
     simp only [apply, Option.some.injEq] at h
     subst h
-    exact (packLoose_has s now x).mpr hx
+    exact (packLoose_has v s now x).mpr hx
   | repack now =>
     simp only [apply, Option.some.injEq] at h
     subst h
@@ -519,15 +539,14 @@ theorem apply_preserves_reachable {G : Id → List Id} {roots : List Id} {fuel :
     rw [pruneLoose_has]
     rcases (has_iff s x).mp hx with h | h | h
     · exact .inl h
-    · obtain ⟨t, _, ht⟩ := lookup_of_mem_looseIds h
-      exact .inr (.inl ⟨t, ht, .inl hxr⟩)
+    · exact .inr (.inl ⟨h, .inl hxr⟩)
     · exact .inr (.inr h)
   | gc prune grace now =>
     simp only [apply, Option.map_eq_some_iff] at h
     obtain ⟨r, hr', rfl⟩ := h
     have hxr : x ∈ r := (findReachable_iff hr' x).mpr hr
     rw [gcWith_has]
-    have hns : x ∉ (if prune then toPrune s r grace now else []) := by
+    have hns : x ∉ (if prune then toPrune v s r grace now else []) := by
       split
       · exact fun hm => (mem_toPrune hm).1 hxr
       · simp
@@ -548,9 +567,9 @@ theorem reach_mono {G : Id → List Id} {roots : List Id} {s s' : Store}
   | step hp hhas hx ih => exact .step ih (h _ hp hhas) hx
 
 /-- 4. … in any order, any number of times (refs fixed) -/
-theorem applyAll_preserves_reachable {G : Id → List Id} {roots : List Id} {fuel : Nat} {ops : List Op} {s s' : Store}
-    (h : applyAll G roots fuel ops s = some s') {x : Id} (hr : Reach s G roots x) (hx : s.has x = true) :
-    s'.has x = true := by
+theorem applyAll_preserves_reachable {v : Variant} {G : Id → List Id} {roots : List Id} {fuel : Nat} {ops : List Op}
+    {s s' : Store} (h : applyAll v G roots fuel ops s = some s') {x : Id} (hr : Reach s G roots x)
+    (hx : s.has x = true) : s'.has x = true := by
   induction ops generalizing s with
   | nil =>
     simp only [applyAll, Option.some.injEq] at h
@@ -562,25 +581,85 @@ theorem applyAll_preserves_reachable {G : Id → List Id} {roots : List Id} {fue
     exact ih h2 (reach_mono (fun y hy hhy => apply_preserves_reachable h1 hy hhy) hr)
       (apply_preserves_reachable h1 hr hx)
 
-/-- "old enough to be pruned": no grace period, or the object's mtime (`get_object_mtime`) is known and at least `g`
+/-- "old enough" as the code sees it: no grace period, or `get_object_mtime` (variant `v`) is known and at least `g`
 seconds before `now` -/
+def OldEnoughV (v : Variant) (s : Store) (grace : Option Nat) (now : Nat) (x : Id) : Prop :=
+  match grace with
+  | none => True
+  | some g => ∃ t, s.mtime? v x = some t ∧ t + g ≤ now
+
+/-- "older than the grace period" in the property's words: no grace period, or the object has a local copy and EVERY
+copy of it (each loose file, each pack that contains it) was last written at least `g` seconds before `now` -/
 def OldEnough (s : Store) (grace : Option Nat) (now : Nat) (x : Id) : Prop :=
   match grace with
   | none => True
-  | some g => ∃ t, s.mtime? x = some t ∧ t + g ≤ now
+  | some g => s.mtimes x ≠ [] ∧ ∀ t ∈ s.mtimes x, t + g ≤ now
 
-/-- 5. what disappears was unreachable and old: only `prune` and `gc` with prune=true remove anything -/
-theorem apply_only_old_unreachable_removed {G : Id → List Id} {roots : List Id} {fuel : Nat} {op : Op} {s s' : Store}
-    (h : apply G roots fuel op s = some s') {x : Id} (hx : s.has x = true) (hgone : s'.has x = false) :
+theorem le_foldl_max (l : List Nat) (a : Nat) : a ≤ l.foldl max a ∧ ∀ t ∈ l, t ≤ l.foldl max a := by
+  induction l generalizing a with
+  | nil => simp
+  | cons b l ih =>
+    simp only [List.foldl_cons, List.mem_cons]
+    obtain ⟨h1, h2⟩ := ih (max a b)
+    refine ⟨by omega, ?_⟩
+    rintro t (rfl | ht)
+    · omega
+    · exact h2 t ht
+
+theorem maxOf_some {l : List Nat} {m : Nat} (h : maxOf l = some m) : l ≠ [] ∧ ∀ t ∈ l, t ≤ m := by
+  cases l with
+  | nil => simp [maxOf] at h
+  | cons a l =>
+    simp only [maxOf, Option.some.injEq] at h
+    subst h
+    obtain ⟨h1, h2⟩ := le_foldl_max l a
+    refine ⟨by simp, ?_⟩
+    intro t ht
+    rcases List.mem_cons.mp ht with rfl | ht
+    · exact h1
+    · exact h2 t ht
+
+theorem oldEnough_of_V {v : Variant} (hv : v.maxMtime = true) {s : Store} {grace : Option Nat} {now : Nat} {x : Id}
+    (h : OldEnoughV v s grace now x) : OldEnough s grace now x := by
+  unfold OldEnoughV at h
+  unfold OldEnough
+  cases grace with
+  | none => trivial
+  | some g =>
+    obtain ⟨t, ht, hle⟩ := h
+    simp only [Store.mtime?, hv, if_true] at ht
+    obtain ⟨hne, hall⟩ := maxOf_some ht
+    exact ⟨hne, fun t' ht' => by have := hall t' ht'; omega⟩
+
+theorem selectable_old {v : Variant} {s : Store} {grace : Option Nat} {now : Nat} {x : Id}
+    (h : selectable v s grace now x = true) : OldEnoughV v s grace now x := by
+  unfold OldEnoughV
+  cases grace with
+  | none => trivial
+  | some g =>
+    unfold selectable at h
+    simp only at h
+    split at h
+    · cases h
+    · rename_i t ht
+      refine ⟨t, ht, ?_⟩
+      simp only [young, Bool.not_eq_true', decide_eq_false_iff_not] at h
+      omega
+
+/-- 5. what disappears was unreachable and old (as `get_object_mtime` of variant `v` sees it): only `prune` and `gc` with
+prune=true remove anything -/
+theorem apply_only_old_unreachable_removed {v : Variant} {G : Id → List Id} {roots : List Id} {fuel : Nat} {op : Op}
+    {s s' : Store} (h : apply v G roots fuel op s = some s') {x : Id} (hx : s.has x = true)
+    (hgone : s'.has x = false) :
     ¬ Reach s G roots x ∧
-    ((∃ grace now, op = .prune grace now ∧ OldEnough s grace now x) ∨
-     (∃ grace now, op = .gc true grace now ∧ OldEnough s grace now x)) := by
+    ((∃ grace now, op = .prune grace now ∧ OldEnoughV v s grace now x) ∨
+     (∃ grace now, op = .gc true grace now ∧ OldEnoughV v s grace now x)) := by
   have hne : ¬ (s'.has x = true) := by simp [hgone]
   cases op with
   | packLoose now =>
     simp only [apply, Option.some.injEq] at h
     subst h
-    exact absurd ((packLoose_has s now x).mpr hx) hne
+    exact absurd ((packLoose_has v s now x).mpr hx) hne
   | repack now =>
     simp only [apply, Option.some.injEq] at h
     subst h
@@ -604,17 +683,13 @@ theorem apply_only_old_unreachable_removed {G : Id → List Id} {roots : List Id
       · exact absurd (.inl h) hne
       · exact h
       · exact absurd (.inr (.inr h)) hne
-    obtain ⟨t, hlk, ht⟩ := lookup_of_mem_looseIds hloose
-    have hnk : ¬ (x ∈ r ∨ young grace now t = true) := fun hk => hne (.inr (.inl ⟨t, ht, hk⟩))
-    refine ⟨fun hreach => hnk (.inl ((findReachable_iff hr' x).mpr hreach)), .inl ⟨grace, now, rfl, ?_⟩⟩
-    unfold OldEnough
-    cases grace with
-    | none => trivial
-    | some g =>
-      refine ⟨t, by simp [Store.mtime?, hlk], ?_⟩
-      have : ¬ (young (some g) now t = true) := fun hy => hnk (.inr hy)
-      simp only [young, decide_eq_true_eq] at this
-      omega
+    have hnk : ¬ (x ∈ r ∨ selectable v s grace now x = false) := fun hk => hne (.inr (.inl ⟨hloose, hk⟩))
+    have hsel : selectable v s grace now x = true := by
+      cases hs : selectable v s grace now x with
+      | true => rfl
+      | false => exact absurd (.inr hs) hnk
+    exact ⟨fun hreach => hnk (.inl ((findReachable_iff hr' x).mpr hreach)),
+      .inl ⟨grace, now, rfl, selectable_old hsel⟩⟩
   | gc prune grace now =>
     simp only [apply, Option.map_eq_some_iff] at h
     obtain ⟨r, hr', rfl⟩ := h
@@ -624,8 +699,8 @@ theorem apply_only_old_unreachable_removed {G : Id → List Id} {roots : List Id
       · exact .inl h
       · exact .inr h
       · exact absurd (.inl h) hne
-    have hsel : x ∈ (if prune then toPrune s r grace now else []) := by
-      by_cases hm : x ∈ (if prune then toPrune s r grace now else [])
+    have hsel : x ∈ (if prune then toPrune v s r grace now else []) := by
+      by_cases hm : x ∈ (if prune then toPrune v s r grace now else [])
       · exact hm
       · exact absurd (.inr ⟨hloc, hm⟩) hne
     cases prune with
@@ -633,28 +708,31 @@ theorem apply_only_old_unreachable_removed {G : Id → List Id} {roots : List Id
     | true =>
       simp only [if_true] at hsel
       obtain ⟨hnr, hselx⟩ := mem_toPrune hsel
-      refine ⟨fun hreach => hnr ((findReachable_iff hr' x).mpr hreach), .inr ⟨grace, now, rfl, ?_⟩⟩
-      unfold OldEnough
-      cases grace with
-      | none => trivial
-      | some g =>
-        unfold selectable at hselx
-        simp only at hselx
-        split at hselx
-        · cases hselx
-        · rename_i t ht
-          refine ⟨t, ht, ?_⟩
-          simp only [young, Bool.not_eq_true', decide_eq_false_iff_not] at hselx
-          omega
+      exact ⟨fun hreach => hnr ((findReachable_iff hr' x).mpr hreach),
+        .inr ⟨grace, now, rfl, selectable_old hselx⟩⟩
+
+/-- 5'. with `get_object_mtime` = most recent copy (the repaired code): every copy of a removed object had outlived the
+grace period -/
+theorem apply_only_old_unreachable_removed_all_copies {v : Variant} (hv : v.maxMtime = true) {G : Id → List Id}
+    {roots : List Id} {fuel : Nat} {op : Op} {s s' : Store} (h : apply v G roots fuel op s = some s') {x : Id}
+    (hx : s.has x = true) (hgone : s'.has x = false) :
+    ¬ Reach s G roots x ∧
+    ((∃ grace now, op = .prune grace now ∧ OldEnough s grace now x) ∨
+     (∃ grace now, op = .gc true grace now ∧ OldEnough s grace now x)) := by
+  obtain ⟨h1, h2⟩ := apply_only_old_unreachable_removed h hx hgone
+  refine ⟨h1, ?_⟩
+  rcases h2 with ⟨g, n, ho, hold⟩ | ⟨g, n, ho, hold⟩
+  · exact .inl ⟨g, n, ho, oldEnough_of_V hv hold⟩
+  · exact .inr ⟨g, n, ho, oldEnough_of_V hv hold⟩
 
 /-- 6. maintenance never makes an absent object appear -/
-theorem apply_no_new_objects {G : Id → List Id} {roots : List Id} {fuel : Nat} {op : Op} {s s' : Store}
-    (h : apply G roots fuel op s = some s') {x : Id} (hx : s'.has x = true) : s.has x = true := by
+theorem apply_no_new_objects {v : Variant} {G : Id → List Id} {roots : List Id} {fuel : Nat} {op : Op} {s s' : Store}
+    (h : apply v G roots fuel op s = some s') {x : Id} (hx : s'.has x = true) : s.has x = true := by
   cases op with
   | packLoose now =>
     simp only [apply, Option.some.injEq] at h
     subst h
-    exact (packLoose_has s now x).mp hx
+    exact (packLoose_has v s now x).mp hx
   | repack now =>
     simp only [apply, Option.some.injEq] at h
     subst h
@@ -673,9 +751,9 @@ theorem apply_no_new_objects {G : Id → List Id} {roots : List Id} {fuel : Nat}
     obtain ⟨r, _, rfl⟩ := h
     rw [pruneLoose_has] at hx
     rw [has_iff]
-    rcases hx with h | ⟨t, ht, _⟩ | h
+    rcases hx with h | ⟨h, _⟩ | h
     · exact .inl h
-    · exact .inr (.inl (by simp only [Store.looseIds, List.mem_map]; exact ⟨(x, t), ht, rfl⟩))
+    · exact .inr (.inl h)
     · exact .inr (.inr h)
   | gc prune grace now =>
     simp only [apply, Option.map_eq_some_iff] at h
